@@ -3,6 +3,7 @@
 package main
 
 import (
+	"bytes"
 	"crypto/rand"
 	"crypto/sha256"
 	"encoding/hex"
@@ -239,6 +240,18 @@ func c18Exec(c c18Case) (keys []string, detail string) {
 			}
 		}
 		return []string{"C18/uuid/not-the-source-bytes-with-version-and-variant-forced"}, detail
+	case "message-bits":
+		// one message of each kind while the source answers with the pattern: the ID is '_' + the
+		// v4 rendering whatever the leading hex digits are
+		rd := &c18Reader{fixed: c.Pattern}
+		var id string
+		var err error
+		withReader(rd, func() { id, err = c18Build(world.SP(), c.History[0]) })
+		keys, detail = c18JudgeIDs([]string{id}, rd.draws)
+		if err != nil {
+			keys = append(keys, "C18/builder-error")
+		}
+		return keys, fmt.Sprintf("builder=%d source=%x id=%q %s", c.History[0], c.Pattern, id, detail)
 	case "history":
 		sps := []*saml2.SAMLServiceProvider{world.SP(), world.SP()}
 		rd := &c18Reader{}
@@ -302,7 +315,7 @@ func c18Replay(raw json.RawMessage) ([]string, string) {
 }
 
 func c18Run(r *mc.Run) {
-	r.Rule = "(a) 258 sixteen-byte answers of the random source (all-zero, all-one, each single bit set, each single bit clear): uuid.NewV4().String() must be the canonical lowercase 8-4-4-4-12 rendering of the answer with exactly the version nibble = 4 and the variant bits = 10 forced and every other bit copied (the transformation is bitwise, so the 122 free bits are an injective image of the source); (b) every history of <= 3 (quick) / <= 4 (thorough) constructions over 3 builders x 2 SP instances, and every interleaving (unbounded) of two constructions on two goroutines for all 9 builder pairs x shared/separate SP, with a recording source handing out distinct answers: each ID = '_' + the v4 rendering of a 16-byte window of the bytes the source handed out, windows of different IDs never overlap (no source byte used twice), every ID matches the xs:ID-safe pattern, none repeats; plus one history of 300 (quick) / 5000 (thorough) constructions for repeats that need many messages. non-trivial = a message was built and its ID compared with the recorded draws; distinct = distinct case"
+	r.Rule = "(a) 258 sixteen-byte answers of the random source (all-zero, all-one, each single bit set, each single bit clear): uuid.NewV4().String() must be the canonical lowercase 8-4-4-4-12 rendering of the answer with exactly the version nibble = 4 and the variant bits = 10 forced and every other bit copied (the transformation is bitwise, so the 122 free bits are an injective image of the source); (a') each of the three message builders with every value 0..255 of the first source byte: the ID is '_' + the v4 rendering for every pair of leading hex digits; (b) every history of <= 3 (quick) / <= 4 (thorough) constructions over 3 builders x 2 SP instances, and every interleaving (unbounded) of two constructions on two goroutines for all 9 builder pairs x shared/separate SP, with a recording source handing out distinct answers: each ID = '_' + the v4 rendering of a 16-byte window of the bytes the source handed out, windows of different IDs never overlap (no source byte used twice), every ID matches the xs:ID-safe pattern, none repeats; plus one history of 300 (quick) / 5000 (thorough) constructions for repeats that need many messages. non-trivial = a message was built and its ID compared with the recorded draws; distinct = distinct case"
 	r.Assume("the unreplaced crypto/rand.Reader is the operating system's CSPRNG (Go's guarantee)")
 	// supporting, does not decide: the uuid package's imports
 	if f, err := parser.ParseFile(token.NewFileSet(), repoDir()+"/uuid/uuid.go", nil, parser.ImportsOnly); err == nil {
@@ -346,6 +359,23 @@ func c18Run(r *mc.Run) {
 		}
 		for _, k := range keys {
 			r.Violation(k, detail, c)
+		}
+	}
+	// (a') every value of the first source byte (both leading hex digits of the ID) x builder
+	for b := 0; b < 256; b++ {
+		for builder := 0; builder < 3; builder++ {
+			pat := bytes.Repeat([]byte{0x5a}, 16)
+			pat[0] = byte(b)
+			c := c18Case{Kind: "message-bits", Pattern: pat, History: []int{builder}}
+			keys, detail := c18Exec(c)
+			r.Eval(1)
+			r.State(1)
+			r.Transition(1)
+			r.Bucket("message-bits")
+			r.Nontrivial(fmt.Sprintf("message-bits%x/%d", pat[:1], builder))
+			for _, k := range keys {
+				r.Violation(k, detail, c)
+			}
 		}
 	}
 	if unobservable > 0 {
